@@ -579,6 +579,17 @@ def apply_sut(sut: TableSUT, op, aux):
                 cell.style = e["s"]
         aux["k"] = cell.repeated or 1
         t.set_cell(coord_of(op["to"]), cell, clone=op.get("clone", True))
+    elif n == "pushback":
+        if op["kind"] == "cells":
+            x, y = op["area"]["a"][:2]
+            cells = t.get_cells(area_of(op["area"]))
+            t.set_cells(cells, (x, y))
+        else:
+            # (like get_row, get_column hands out the stored declaration with its repeat count:
+            # the copy is pushed back as one column)
+            col = t.get_column(xarg(op))
+            col.repeated = None
+            t.set_column(xarg(op), col)
     elif n == "read":
         do_read(t, op)
     elif n == "restart":
@@ -725,13 +736,15 @@ def apply_model(g: Grid, op, aux):
         row = g._row_for_edit(op["to"]["y"])
         Grid.row_set_cell(row, op["to"]["x"], src, k)
         g._upd_width(len(row))
-    elif n in ("read", "restart"):
+    elif n in ("read", "restart", "pushback"):
+        # (pushback: copies read from the table are set back where they were read: nothing changes)
         pass
     else:
         raise ValueError(f"unknown op {n}")
 
 
 GRID_MUTATIONS = {
+    "pushback",
     "set_value", "set_cell", "insert_cell", "append_cell", "delete_cell", "set_row", "insert_row",
     "append_row", "delete_row", "extend_rows", "set_row_values", "set_row_cells", "set_values",
     "set_cells", "set_column_values", "set_column_cells", "insert_column", "append_column",
@@ -901,6 +914,14 @@ def features(op, tv: xmlref.TableView) -> list:
             f.add("arg_rep")
         elif not any(e["e"] == "rep" for e in op["edits"]):
             f.add("rep_as_returned")
+    elif n == "pushback":
+        f.add("pushback_" + op["kind"])
+        if op["kind"] == "cells":
+            x, y, z, t = op["area"]["a"]
+            for yy in range(y, min(t, H - 1) + 1):
+                cell_feats(x, yy)
+        else:
+            col_feats(op["x"])
     return sorted(f)
 
 
